@@ -387,6 +387,15 @@ def fix_starred_imports(source: str) -> str:
         elif not (name.startswith("__") and name.endswith("__")):  # Like __file__
             untraced_names.add(name)
 
+    # The names are traced to the last starred import that provides them. An earlier starred
+    # import of the same module provides them as well, to the code between the two.
+    module_names = collections.defaultdict(set)
+    for node, names in starred_import_name_mapping.items():
+        module_names[(node.level, node.module)].update(names)
+    for node in template:
+        if module_names[(node.level, node.module)]:
+            starred_import_name_mapping[node] = module_names[(node.level, node.module)]
+
     for node, names in starred_import_name_mapping.items():
         if names:
             yield node, ast.ImportFrom(
